@@ -157,7 +157,7 @@ func (c *ctl) check() {
 func (c *ctl) sendInvalid(t *rapid.T) {
 	m := c.m
 	w := m.W
-	kind := rapid.SampledFrom([]string{"unknown-dst", "lookalike-dst", "over-balance", "huge-amount", "empty-packet", "direct-sendPacket", "wrong-sequence", "self-dst"}).Draw(t, "kind")
+	kind := rapid.SampledFrom([]string{"unknown-dst", "lookalike-dst", "over-balance", "huge-amount", "empty-packet", "direct-sendPacket", "wrong-sequence", "self-dst", "misnamed-contract"}).Draw(t, "kind")
 	src := rapid.IntRange(0, len(w.Chains)-1).Draw(t, "src")
 	ch := w.Chains[src]
 	dst := w.Chains[(src+1)%len(w.Chains)].ChainID
@@ -213,6 +213,44 @@ func (c *ctl) sendInvalid(t *rapid.T) {
 		}
 		m.R.Label("invalid_" + kind)
 		m.Log("sendInvalid", kind, "rejected, state unchanged")
+		return
+	case "misnamed-contract":
+		// fault injection: the packet contract carries another chain name than the chain-side module (both are genesis
+		// content: EVM storage and the xibc client genesis); every send must then fail without any change. The name is put
+		// back afterwards so that the history continues.
+		other := rapid.SampledFrom([]string{dst, ch.ChainID + "x", strings.ToUpper(ch.ChainID), "", "teleport"}).Draw(t, "contractName")
+		setName := func(n string) {
+			_, err := ch.App.XIBCKeeper.PacketKeeper.CallEVM(ch.Ctx(), packetcontract.PacketContract.ABI, packettypes.ModuleAddress, packetcontract.PacketContractAddress, "setChainName", n)
+			kit.Must(err, "setChainName")
+		}
+		if w.Balance(src, w.Tok[src], w.Users[user].Addr).Sign() == 0 {
+			spec.Token = common.Address{}
+			if src != 0 {
+				spec.Token = w.TTok[src]
+			}
+		}
+		setName(other)
+		restored := false
+		defer func() {
+			if !restored {
+				setName(ch.ChainID)
+			}
+		}()
+		out := w.Send(spec, true)
+		if out.OK {
+			m.Failf("send succeeded although the packet contract names the chain %q and the chain-side module %q (no commitment can exist for it)", other, ch.ChainID)
+		}
+		if d := kit.Diff(out.Before, out.After); len(d) != 0 {
+			m.Failf("failed send (packet contract named %q on chain %q) changed state:\n%s", other, ch.ChainID, kit.DiffString(d, 10))
+		}
+		setName(ch.ChainID)
+		restored = true
+		c.failKinds[kind] = true
+		if c.okSends > 0 {
+			c.failBetween = true
+		}
+		m.R.Label("invalid_" + kind)
+		m.Log("sendInvalid", kind+" "+other, "rejected, state unchanged")
 		return
 	case "wrong-sequence":
 		// fault injection: the chain-side counter is moved away from the contract's counter; the send must
